@@ -318,6 +318,7 @@ CHECKS["C13"] = {
     "harnesses": [
         H("c13.VH_listener", {"CONNS": 2, "L": 3}, {"CONNS": 3, "L": 3}, covers=["delivered and read", "consumed or rejected", "closed"], weight=3, **_envonly),
         H("c13.VH_listener", {"params": {"CONNS": 2, "L": 2}, "preempt": 1}, {"params": {"CONNS": 2, "L": 3}, "preempt": 2}, variant="preempt", covers=["delivered and read", "closed"], weight=5, **_envonly),
+        H("c13.VH_listener_wrap", {"CONNS": 2, "L": 3}, {"CONNS": 2, "L": 4}, covers=["handler consumed the buffered bytes and wrapped", "delivered and read", "delivered after a handler consumed bytes"], weight=4, **_envonly),
         H("c13.VH_close_pending", {"CONNS": 2}, {"CONNS": 3}, covers=["closed with pending connections"], **_envonly),
         H("c13.VH_close_pending", {"CONNS": 3, "GOMAXPROCS": 1}, {"CONNS": 3, "GOMAXPROCS": 2}, variant="small-queue", covers=["closed with pending connections"], **_envonly),
         H("c13.VH_close_pending", {"params": {"CONNS": 2}, "preempt": 1}, {"params": {"CONNS": 3}, "preempt": 2}, variant="preempt", covers=["closed with pending connections"], weight=2, **_envonly),
@@ -333,6 +334,7 @@ CHECKS["C08"] = {
         H("c13.VH_listener", {"CONNS": 2, "L": 3}, {"params": {"CONNS": 3, "L": 3}, "pool_adversarial": True}, variant="pool", covers=["delivered and read"], weight=3, **_envonly),
         H("c01.VH_step_tee", {"MAXB": 3000}, {"MAXB": 5000}, covers=["recorder ran", "bytes buffered at handler time"], weight=8, validate=False),
         H("c01.VH_prefetch_step", {}, {}, covers=["read through a pooled chunk"]),
+        H("c13.VH_listener_wrap", {"CONNS": 2, "L": 3}, {"CONNS": 2, "L": 4}, covers=["handler consumed the buffered bytes and wrapped", "delivered and read", "delivered after a handler consumed bytes"], weight=4, **_envonly),
     ],
     "level_text": "cross-talk half only: bounded model checking of pooled matching-buffer lifetime - two or three connections go through the listener wrapper, the first one is handed over (its prefetched bytes still unread) before the next one takes a buffer from the pool and prefetches; every delivered connection must read exactly its own client's bytes. The tee branch/main-chain pair is checked the same way (each reads the whole stream once). The data-race half of the property is NOT decided",
     "level_note": "data races (plain accesses under the real scheduler) are outside a symbolic executor that pre-empts only at synchronisation operations and assumes data-race freedom elsewhere; see DESIGN section 5 C08. One race (round_robin's plain read of its atomic counter) was found by reading and repaired",
